@@ -46,7 +46,7 @@ fn is_number(s: &[u8]) -> bool {
     !d.is_empty() && d.iter().all(|c| c.is_ascii_digit())
 }
 
-pub fn bases(kind: &str) -> Vec<Vec<u8>> {
+pub fn bases(kind: &str, flag: bool) -> Vec<Vec<u8>> {
     let mut long = match kind {
         "cnf" => b"p cnf 9 0\n".to_vec(),
         "wcnf" => b"p wcnf 9 0 99\n".to_vec(),
@@ -74,20 +74,34 @@ pub fn bases(kind: &str) -> Vec<Vec<u8>> {
         "cnf" => vec![b"p cnf 3 2\n1 -3 0\n2 3 -1 0\n".to_vec(), long],
         "wcnf" => vec![b"p wcnf 3 2 10\n10 1 -2 0\n3 2 3 0\n".to_vec(), long],
         "gcnf" => vec![b"p gcnf 3 2 2\n{1} 1 -2 0\n{2} 3 0\n".to_vec(), long],
-        "log" => vec![b"s SATISFIABLE\nv 1 -2 3\nv -4 0\n".to_vec()],
+        "log" => {
+            let mut v = vec![b"s SATISFIABLE\nv 1 -2 3\nv -4 0\n".to_vec(), b"c foo\ns SATISFIABLE\nc bar\nv 1 -2 3\nc baz\nv -4 0\n".to_vec()];
+            if flag {
+                // ignore_unknown_lines: skipped lines (also empty ones) in front of every statement
+                v.push(b"hello world\ns SATISFIABLE\n\nnoise\nv 1 -2 3\nc comment\nmore noise here\nv -4 0\n".to_vec());
+                v.push(b"x\nv 7 0\n".to_vec());
+            }
+            v
+        }
         _ => vec![],
     });
     all
 }
 
 pub fn corruptions(kind: &str) -> Vec<Corruption> {
+    corruptions_flag(kind, false)
+}
+
+/// `flag`: the parser option of the subjects the catalogue is meant for (ignore_unknown_lines for the
+/// solver log; the DIMACS catalogue relies on the header being enforced and is only built for false).
+pub fn corruptions_flag(kind: &str, flag: bool) -> Vec<Corruption> {
     let mut out = Vec::new();
     let huge = {
         let mut h = b"1".to_vec();
         h.extend(std::iter::repeat(b'0').take(40));
         h
     };
-    for base in bases(kind) {
+    for base in bases(kind, flag) {
         let toks = tokens_of(&base);
         // the header is the line that starts with the token "p"
         let header_line = toks.iter().find(|t| &base[t.start..t.end] == b"p").map_or(0, |t| t.line);
